@@ -187,7 +187,16 @@ PURE_STDLIB = {
     're.search': lambda it, p, s, *a: re.search(p, s, *a), 're.split': lambda it, p, s, *a: re.split(p, s, *a), 're.findall': lambda it, p, s, *a: re.findall(p, s, *a),
     're.escape': lambda it, s: re.escape(s), 're.compile': lambda it, p, *a: re.compile(p, *[x for x in a if isinstance(x, int)]),
     're.finditer': lambda it, p, s, *a: list((p if isinstance(p, re.Pattern) else re.compile(p)).finditer(s)),
+    'functools.partial': lambda it, f, *a, **k: _partial(it, f, a, k), 'partial': lambda it, f, *a, **k: _partial(it, f, a, k),
+    'operator.itemgetter': lambda it, *ks: ((lambda o: o[ks[0]]) if len(ks) == 1 else (lambda o: tuple(o[k] for k in ks))),
+    'itertools.chain': lambda it, *seqs: [x for s_ in seqs for x in s_],
 }
+
+
+def _partial(it, f, a, k):
+    if not callable(f):
+        raise AnalysisError('interpreter: functools.partial of something that is not a function of the analysed code')
+    return lambda *a2, **k2: f(*a, *a2, **dict(k, **k2))
 
 
 class Interp:
@@ -498,7 +507,7 @@ class Interp:
                     finally:
                         self.module = saved
                 return Closure(g_[1], Env(), self)
-            if e.id[:1].isupper() or e.id in ('ast', 'sa', 're', 'copy', 'utils', 'steps', 'dt', 'datetime', 'textwrap') or e.id in {k.split('.')[0] for k in self.stubs}:
+            if e.id[:1].isupper() or e.id in ('ast', 'sa', 're', 'copy', 'utils', 'steps', 'dt', 'datetime', 'textwrap', 'functools', 'itertools', 'operator') or e.id in {k.split('.')[0] for k in self.stubs}:
                 return ClassRef(e.id)       # a class / module of the repository: only used as callee or in isinstance
             raise AnalysisError(f'interpreter: free variable `{e.id}` (line {getattr(e, "lineno", "?")}) has no stand-in')
         if isinstance(e, ast.Attribute):
